@@ -96,10 +96,5 @@ class Prop:
                              [(i, w[:20]) for i, w in exp], [(i, w[:20]) for i, w in got],
                              {'kind': 'wrapper', 'frontend': fe})
 
-    def replay(self, ctx, payload):
-        inp = payload['failure']['input']
-        print(impl.step('stream %s 0 %s' % (inp['frontend'], ' '.join(inp['lines'])))[:2000])
-        return True
-
 
 PROP = Prop()
